@@ -50,7 +50,8 @@ Definition compilePoints (pts : list Z) : Res (list Z) :=
   | _ =>
       let n := Z.of_nat (length pts) in
       let* hdr := if n <? 128 then Ok [n]
-                  else let b := Z.lor (Z.shiftr n 8) 128 in if 255 <? b then Err ValueError else Ok [b; Z.land n 255] in
+                  else if 32767 <? n then Err ValueError        (* the count has 15 bits *)
+                  else Ok [Z.lor (Z.shiftr n 8) 128; Z.land n 255] in
       let* runs := compile_runs (S (length pts)) 0 pts in
       Ok (hdr ++ runs)
   end.
